@@ -2,7 +2,7 @@ package main
 
 func init() {
 	register("C09", &PropDef{
-		Explain: "Structural necessary conditions of 'every publish on a persistent bus is recorded once, before it is delivered': (R1) PublishContext reaches the persist function by a static call exactly once on every path, ahead of the handler snapshot, with the publish context and the published event — so no option order or later hook can displace persistence (if persistence were installed through a hook slot instead, every writer of that slot would have to chain it); (R2) the persist function calls EventStore.Append exactly once on every path on which a store is set and marshalling succeeded, synchronously (not in a loop, goroutine or deferred call), so the record is in the store before the snapshot; (R3) the record's Type originates from EventType(event) and its Data from json.Marshal(event) of the same event parameter; (R4) Append is called with the bus's store write lock held and lastOffset is written with Append's offset result inside that same locked region; the bundled memory store increments and formats its counter under its own write lock. Not decided: that stores return distinct increasing offsets (C10), decoding equality. Also: the context derived for the append is still live when Append is called (no cancel before it); the bundled stores decode every record read back into an object of its own.",
+		Explain: "Structural necessary conditions of 'every publish on a persistent bus is recorded once, before it is delivered': (R1) PublishContext reaches the persist function by a static call exactly once on every path, ahead of the handler snapshot, with the publish context and the published event — so no option order or later hook can displace persistence (if persistence were installed through a hook slot instead, every writer of that slot would have to chain it); (R2) the persist function calls EventStore.Append exactly once on every path on which a store is set and marshalling succeeded, synchronously (not in a loop, goroutine or deferred call), so the record is in the store before the snapshot; (R3) the record's Type originates from EventType(event) and its Data from json.Marshal(event) of the same event parameter; (R4) Append is called with the bus's store write lock held and lastOffset is written with Append's offset result inside that same locked region; the bundled memory store increments and formats its counter under its own write lock. Not decided: that stores return distinct increasing offsets (C10), decoding equality. Also: the context derived for the append is still live when Append is called (no cancel before it); the bundled stores decode every record read back into an object of its own. (R6) nothing a bundled store obtains under one call's context is kept in a field for later calls (an append must run under its own caller's context).",
 		Run: func(c *Ctx) {
 			c.Rule("C09.R1", "persist function statically called once per publish ahead of the snapshot, with the publish ctx and event; not displaceable by hooks")
 			c.Rule("C09.R2", "Append exactly once on store-set ∧ marshal-ok paths, synchronous, never in a loop/goroutine")
